@@ -43,6 +43,14 @@ def rule_raw_text(check):
                     bt = (l.get("base_ty") or "").replace("&mut ", "").replace("&", "")
                     if bt.startswith("swc_ecma_ast::") and bt.split("::")[-1].split("<")[0] in RAW_TYPES:
                         check.bad(R, "%s/%s/assigns-%s.%s" % (R, X.T.short(f), bt.split("::")[-1], l["field"]), hir.loc(n), "%s rewrites %s.%s: token text assembled by concatenation can lex differently (e.g. `$` + `{` inside a template)" % (f.name, bt.split("::")[-1], l["field"]))
+            # ... or takes a mutable view of one (`s.raw.take()`, `mem::take(&mut s.raw)`, `*(&mut s.raw) = ..`)
+            if n.get("k") == "Field" and n.get("field") in RAW_FIELDS:
+                bt = (n.get("base_ty") or "").replace("&mut ", "").replace("&", "")
+                if bt.startswith("swc_ecma_ast::") and bt.split("::")[-1].split("<")[0] in RAW_TYPES:
+                    par = f.parent(n)
+                    mut_view = any("Borrow(Ref(Mut" in a_ for a_ in (n.get("adj") or [])) or (par is not None and par.get("k") == "AddrOf" and par.get("mut"))
+                    if mut_view:
+                        check.bad(R, "%s/%s/assigns-%s.%s" % (R, X.T.short(f), bt.split("::")[-1], n["field"]), hir.loc(n), "%s takes a mutable view of %s.%s (take / replace / in-place edit): token text that is dropped or edited is printed from the value and can lex differently" % (f.name, bt.split("::")[-1], n["field"]))
     check.ok(R, R + "/scan", "-", "%d struct literals / assignments scanned: no token text is fabricated" % n_scanned)
     check.floor(R, "constructions and assignments scanned", n_scanned, 60)
 
